@@ -209,16 +209,34 @@ func (p cpuProbe) done() {
 	}
 }
 
+var c15OtherNative = []byte("other \"l\" {\n  x = [for v in y: upper(v) if v != \"\"]\n  t = <<EOT\n${a} %{ if b }c%{ endif }\nEOT\n}\nz = {k = 1}.k\n")
+var c15OtherJSON = []byte("{\"other\": {\"l\": {\"x\": \"${y}\", \"n\": [1, 2.5e3, null, true]}}, \"z\": \"%{ if b }c%{ endif }\"}")
+
 func c15Run(c *core.Case, src []byte, isJSON bool) bool {
 	r := c.Rng
 	const fn = "in.hcl"
 	produced := false
+	original := string(src)
 	twice := func(name string, f func() (string, hcl.Diagnostics, bool)) (hcl.Diagnostics, bool) {
 		p := cpuStart(c, name)
 		r1, d1, nonNil := f()
 		p.done()
+		// an unrelated input through the same entry point in between: the second
+		// call on src must not see anything the other call left behind
+		saved := src
+		if isJSON {
+			src = c15OtherJSON
+		} else {
+			src = c15OtherNative
+		}
+		f()
+		src = saved
+		if string(src) != original {
+			c.Violation("input-modified/"+name, name+" changed the bytes of the source buffer it was given", nil)
+			src = []byte(original)
+		}
 		r2, d2, _ := f()
-		c.Evals(2)
+		c.Evals(3)
 		c.Count("entry:" + name)
 		if !nonNil {
 			c.Violation("nil-result/"+name, name+" returned a nil result", nil)
